@@ -18,13 +18,14 @@ ASSUMPTIONS = ["blocks are non-empty, ascending and non-overlapping (0-bp gaps i
                "such a block, chromosome mode keeps it: Props/C14.lean zero_length_block_witness) - such inputs are "
                "generated and compared model-vs-implementation only",
                "chunk parents are plus-strand windows containing the interval (the property's quantifier)",
-               "names/ids/sequence names contain no whitespace (a tab inside a name yields a 13-column line: "
+               "names/ids contain no tab / newline; spaces (inner, leading, trailing, doubled) are generated (a tab inside a name yields a 13-column line: "
                "to_bed12 does no escaping; names are not part of the property's quantifier)",
                "the `name` argument is an identifier attribute or a string that is not an attribute name"]
 MODEL_OPS = None
 ERR_CLASS = False
 
-NAMES = ["tx1", "~", "a,b", "12", "-", "x.y:z|w", "None", "+"]
+NAMES = ["tx1", "~", "a,b", "12", "-", "x.y:z|w", "None", "+",
+         "a\u2420b", "\u2420lead", "trail\u2420", "two\u2420\u2420sp"]      # \u2420 = a space (see impl_bed.VIS_SPACE)
 
 
 def impl(line):
@@ -103,7 +104,7 @@ def cases(run):
                     for par in pars:
                         for mode in ("chrom", "chunk"):
                             sym, ident, seqn = rng.choice(NAMES), rng.choice(NAMES), rng.choice(["chr1", "~", "II"])
-                            sel = rng.choice(["sym", "sym", "id", "lit:nm_" + rng.choice(["a", "b,c", "7"])])
+                            sel = rng.choice(["sym", "sym", "id", "lit:nm_" + rng.choice(["a", "b,c", "7", "x\u2420y"])])
                             run.count(f"kind:{kind}{'-coding' if cds else ''}")
                             run.count(f"mode:{mode}/{par[0]}")
                             yield line(kind, st, ex, cds, seqn, sym, ident, sel, rng.choice([0, 0, 7, 1000]),
